@@ -530,7 +530,7 @@ func (g *G) template() podTemplate {
 	case "fraction":
 		t.frac = pick(g, []string{"0.5", "0.25", "0.3", "0.7", "0.1", "0.33", "0.6", "1", "0.45", "0.05", "0.9"})
 	case "gpumem":
-		t.gpuMem = pick(g, []string{"1000", "4000", "8000", "2048", "12000", "50", "20000"})
+		t.gpuMem = pick(g, []string{"1000", "4000", "8000", "2048", "12000", "50", "20000", "16384", "32768", "30218", "81920"}) // incl. exactly one device and integral multiples of a device
 	case "multifrac":
 		t.devices = int64(g.in(2, 3))
 		if g.p(0.7) {
